@@ -425,6 +425,15 @@ impl<T: Clone + Eq + Debug + Default> WrappedBlock<T> {
                 // Write any remaining whitespace
                 while self.wslen > 0 {
                     verif_tick!(WsFill);
+                    if self.width == 0 {
+                        // Zero width: no whitespace can be written, so no
+                        // progress is possible.
+                        if self.allow_overflow {
+                            self.wslen = 0;
+                            break;
+                        }
+                        return Err(TooNarrow);
+                    }
                     let to_copy = self.wslen.min(self.width);
                     self.line.push_ws(to_copy, self.spacetag.as_ref().unwrap());
                     if to_copy == self.width {
